@@ -1,10 +1,11 @@
 package checks
 
 import (
-	"runtime"
 	"bytes"
 	"fmt"
+	"runtime"
 	"runtime/debug"
+	"time"
 )
 
 // Alphabets used by the small-scope enumerations: bytes just below / at / above
@@ -78,6 +79,12 @@ func q(b []byte) string { return fmt.Sprintf("%q", b) }
 var stubRegion = regionFor("t", "", "", 1)
 
 // allStacks returns the stacks of all goroutines (diagnosis of a stalled free-running body).
+// raceWait is how long a free-running body waits for one answer before it calls the
+// request stranded. The bodies run on the real clock next to whatever else the machine is
+// doing: a request that is merely slow must not be taken for one that never completes
+// (which stays lost for any wait), so the wait is long; the pass's watchdog is longer.
+const raceWait = 100 * time.Second
+
 func allStacks() string {
 	buf := make([]byte, 1<<20)
 	return string(buf[:runtime.Stack(buf, true)])
